@@ -306,7 +306,7 @@ def _find_index(pos, up):
     return rt.fin(got == want, rt.first_diff(got, want))
 
 
-QUICK = {"list": [7, 5, 3], "basic": [2], "iso": [3], "table": [0], "mx6": [1]}
+QUICK = {"list": [7, 5, 3], "basic": [2], "iso": [3], "table": [0], "mx6": [1], "ni": [0, 1]}
 
 
 def obligations(tier, seed):
